@@ -630,6 +630,8 @@ def run(ctx, res):
     check_stream(res, facts)
     check_buckets(res, facts)
     check_digitalign(res, facts)
+    from rules import c05_value
+    c05_value.check_msm_value(res, facts, ctx.tier)
     return {
         "level": "other",
         "explanation": "Typestate / pairing rules over the MIR of ark-ec's variable-base MSM and streaming Pippenger code (serial and parallel configurations): lock-step mutation of paired buffers, length policy of checked and unchecked entry points, flush/finalize structure, window recombination. Does NOT decide that any entry point returns the sum (digit extraction and bucket indexing are run-time index arithmetic).",
